@@ -47,6 +47,23 @@ theorem table_get_many_mut_partial (hc : CfgOk cfg) (env : Env) (any : Bool)
           Inv cfg { w.t with slots := s' }))) :=
   Table.getManyMut_spec_partial hc (probe_covers cfg hc.spec.width) env any reqs w h hsz
 
+/-- The full statement, for the code AFTER the `fix:` commit in /repo (duplicates detected by bucket,
+    `cfg.zstDupFixed = true` — the value the correspondence check forces on the current tree): every
+    element size including zero. -/
+theorem table_get_many_mut (hc : CfgOk cfg) (env : Env) (any : Bool)
+    (reqs : List (Nat × Nat)) (w : World) (h : Inv cfg w.t) (hfix : cfg.zstDupFixed = true) :
+    (∃ w', Table.getManyMut cfg env any reqs w = .panic "eq" w' ∧ any = false ∧ w'.t = w.t ∧
+      w'.log = w.log) ∨
+    (∃ idxs w1, ts_FoundBy cfg env any w.t reqs idxs ∧ ts_AllLive w.t idxs ∧ w1.t = w.t ∧
+      w1.log = w.log ∧
+      (((∃ (j1 j2 i : Nat), j1 < j2 ∧ idxs[j1]? = some (some i) ∧ idxs[j2]? = some (some i)) ∧
+          Table.getManyMut cfg env any reqs w = .panic "dup" w1) ∨
+       ((idxs.filterMap id).Nodup ∧ ∃ rs s',
+          Table.getManyMut cfg env any reqs w = .ok (rs, { w1 with t := { w.t with slots := s' } }) ∧
+          rs.length = reqs.length ∧ ts_ManyOk (Table.setV cfg) w.t idxs rs s' ∧
+          Inv cfg { w.t with slots := s' }))) :=
+  table_get_many_mut_partial hc env any reqs w h (Or.inr hfix)
+
 /-- The writes of a successful `HashTable::get_many_mut` keep the table's hash-dependent invariant
     (they touch payloads only). -/
 theorem table_get_many_mut_keeps_tblInv {H : Nat → Nat} {t : Raw} (h : TblInv cfg H t)
@@ -130,6 +147,7 @@ theorem table_dup_check_is_bucket_identity (hsz : cfg.size ≠ 0 ∨ cfg.zstDupF
   (ts_hasDup_iff hsz idxs).trans (ts_not_nodup_iff idxs)
 
 #print axioms table_get_many_mut_partial
+#print axioms table_get_many_mut
 #print axioms table_get_many_mut_keeps_tblInv
 #print axioms zst_defect_witness
 #print axioms sized_twin
